@@ -9,9 +9,8 @@ open Fastor Fastor.Expr Fastor.Layout Fastor.MapAlias
 
 def parseDims (s : String) : List Nat := (s.splitOn "x").filterMap String.toNat?
 
-def materialise (n : Nat) (m : Nat → Fp) : Nat → Fp :=
-  let arr := ((List.range n).map m).toArray
-  fun p => arr.getD p 0
+/-- force a memory into an array (a function-valued `def` would be re-run on every application) -/
+def memArr (n : Nat) (m : Nat → Fp) : Array Fp := ((List.range n).map m).toArray
 
 def digestMem (n : Nat) (m : Nat → Fp) : UInt64 := (List.range n).foldl (fun h p => Fp.hash h (m p)) (0 : UInt64)
 
@@ -26,22 +25,30 @@ def runLayout (kv : List (String × String)) : String := Id.run do
   let seq := List.range n
   let cmReads := (toColumnMajorMoves dims).map (·.2)
   let rmReads := (toRowMajorMoves dims).map (·.2)
-  let cm := materialise n (toColumnMajor dims a zero)
-  let rm := materialise n (toRowMajor dims a zero)
+  let cmW := movesWrites (toColumnMajorMoves dims) a
+  let rmW := movesWrites (toRowMajorMoves dims) a
+  let cmA := memArr n (applyWrites cmW zero)
+  let rmA := memArr n (applyWrites rmW zero)
+  let cm : Nat → Fp := fun p => cmA.getD p 0
+  let rm : Nat → Fp := fun p => rmA.getD p 0
+  let rtcrW := movesWrites (toRowMajorMoves dims) cm
+  let rtrcW := movesWrites (toColumnMajorMoves dims) rm
+  let ccW := ctorBufferWrites dims .columnMajor a zero
+  let crW := ctorBufferWrites dims .rowMajor a zero
   let _ := src
   -- (result, reads of the input window, writes of the result window, reads of the result window)
   let (res, rseq, wseq, r0seq) : (Nat → Fp) × List Nat × List Nat × List Nat :=
     match fn with
     | "tocm" => (cm, cmReads, seq, [])
     | "torm" => (rm, rmReads, seq, [])
-    | "rtcr" => (toRowMajor dims cm zero, cmReads, seq, [])
-    | "rtrc" => (toColumnMajor dims rm zero, rmReads, seq, [])
-    | "ptrcm" => (ctorBuffer dims .columnMajor a zero, seq, seq ++ seq, cmReads)
-    | "ptrrm" => (ctorBuffer dims .rowMajor a zero, seq, seq, [])
-    | "arrcm" => (ctorBuffer dims .columnMajor a zero, [], seq ++ seq, cmReads)
-    | "veccm" => (ctorBuffer dims .columnMajor a zero, [], seq ++ seq, cmReads)
-    | "arrrm" => (ctorBuffer dims .rowMajor a zero, [], seq, [])
-    | "vecrm" => (ctorBuffer dims .rowMajor a zero, [], seq, [])
+    | "rtcr" => (applyWrites rtcrW zero, cmReads, seq, [])
+    | "rtrc" => (applyWrites rtrcW zero, rmReads, seq, [])
+    | "ptrcm" => (applyWrites ccW zero, seq, seq ++ seq, cmReads)
+    | "ptrrm" => (applyWrites crW zero, seq, seq, [])
+    | "arrcm" => (applyWrites ccW zero, [], seq ++ seq, cmReads)
+    | "veccm" => (applyWrites ccW zero, [], seq ++ seq, cmReads)
+    | "arrrm" => (applyWrites crW zero, [], seq, [])
+    | "vecrm" => (applyWrites crW zero, [], seq, [])
     | _ => (a, [], seq, [])
   if fn == "ilist" then
     -- nested initializer lists: the elements in reading order are tokens 0,1,2,…; build the nested list of the
@@ -123,10 +130,10 @@ def runMapops (kv : List (String × String)) : String := Id.run do
     let k := stepNo
     let (s', evs) := step Fp.ofInt (fun _ => Fp.ofTok 9 k) opnd (fun _ => 0) V nm via o s
     -- force the three memories once per step (otherwise the closures nest and every read replays the history)
-    let bufA := materialise n s'.buf
-    let rdM := materialise n (s'.rd .map)
-    let rdS := materialise n (s'.rd .src)
-    s := { buf := bufA, rd := fun v => match v with | .map => rdM | .src => rdS }
+    let bufA := memArr n s'.buf
+    let rdM := memArr n (s'.rd .map)
+    let rdS := memArr n (s'.rd .src)
+    s := { buf := fun p => bufA.getD p 0, rd := fun v => match v with | .map => (fun p => rdM.getD p 0) | .src => (fun p => rdS.getD p 0) }
     let ws := evs.flatMap (evWrites V)
     wseq := hstep wseq (hashNats 0 ws)
     nw := nw + ws.length
